@@ -71,6 +71,20 @@ def step (_ : Unit) (line : String) : Unit × String :=
     match autoImportEdits (parseLocs l) (rndOf (parseTable r)) (parseList a) x.toInt! with
     | some eds => ((), showEdits eds)
     | none => ((), "out-of-fuel")
+  -- `medits <locsI> <oldI> <newI> <tableI> <locsT> <oldT> <newT> <tableT>` = moduleEdits
+  | ["medits", li, ai, bi, ri, lt, at_, bt, rt] =>
+    match diff (parseList ai) (parseList bi), diff (parseList at_) (parseList bt) with
+    | some sI, some sT =>
+      ((), showEdits (moduleEdits (parseLocs li) (parseLocs lt) (rndOf (parseTable ri)) (rndOf (parseTable rt)) sI sT))
+    | _, _ => ((), "out-of-fuel")
+  -- `cdec <available names> <root 0/1> <names>`: which completion items carry the auto-import edit
+  | ["cdec", av, root, ns] =>
+    let avail := if av == "-" then [] else av.splitOn ","
+    let names := if ns == "-" then [] else ns.splitOn ","
+    ((), String.ofList (names.map fun n =>
+      match completionAdditionalEdits (α := Int) [] (fun _ => [65]) [] avail (root == "1") n 0 with
+      | some [] => '0'
+      | _ => '1'))
   | _ => ((), "bad-op")
 
 end Driver.C16
